@@ -248,7 +248,7 @@ def ob_bsphere(g, inst, enc, tr):
 
 def obligations(enc, inst, tr):
     g = G(enc, tr)
-    if inst.get("paths", 1) > 1 and not path_feasible(enc, input_domain(enc, inst)):
+    if inst.get("paths", 1) > 1 and not path_feasible(enc, input_domain(enc, inst), timeout_ms=1500):
         # rounding-only path (flip model exactly on a decision boundary; contradictory over the reals): outside the claim
         import sys
         print("C36: path of %s infeasible over the reals (tie decided by rounding) - skipped" % inst["name"], file=sys.stderr)
